@@ -234,6 +234,56 @@ func runC03(c *core.Ctx) {
 		c.ClassN(nStates * 2 * 5)
 		c.End(blockID)
 	}
+	// ---- both sides at once: one rule on the material side and one on the product side of the same
+	// item (state of one round must not leak into the other), probes on the product side
+	{
+		nb := 0
+		for i1, r1 := range vocab {
+			for i2, r2 := range vocab {
+				nb++
+				if !c.Mine(nb) {
+					continue
+				}
+				if c.Quick() && core.HashParts(c.Seed, "both", i1, i2)%8 != 0 {
+					continue
+				}
+				blockID := fmt.Sprintf("both/%d-%d", i1, i2)
+				if c.Only != "" && !strings.HasPrefix(c.Only, blockID+"/") {
+					continue
+				}
+				c.Begin(blockID)
+				n := int64(0)
+				for ms := 0; ms < 81; ms++ {
+					for ps := 0; ps < 81; ps++ {
+						if core.HashParts(c.Seed, "both", i1, i2, ms, ps)%4 != 0 {
+							continue
+						}
+						link := ref.LinkState{Materials: stateOf(ms), Products: stateOf(ps)}
+						for probe := -1; probe < len(c03Paths); probe++ {
+							prods := [][]string{r2}
+							if probe >= 0 {
+								prods = append(prods, []string{"DISALLOW", c03Paths[probe]})
+							}
+							k := c03Case{Inspection: (ms+ps)%2 == 0, Link: link, Dst: dst, Mats: [][]string{r1}, Prods: prods}
+							id := fmt.Sprintf("%s/m%d/p%d/probe%d", blockID, ms, ps, probe)
+							if !c.Want(id) {
+								continue
+							}
+							ie, _ := c03Run(c, id, k)
+							if ie == nil {
+								accepted++
+							} else {
+								rejected++
+							}
+							n++
+						}
+					}
+				}
+				c.ClassN(n)
+				c.End(blockID)
+			}
+		}
+	}
 	// ---- thorough: all rule lists of length 3 over a reduced vocabulary, on the 3-path sub-universe ----
 	if !c.Quick() {
 		small := [][]string{
@@ -559,7 +609,7 @@ func init() {
 	core.Register(&core.Property{
 		ID:    "C03",
 		Level: "exploration",
-		Rule: "exhaustive: universe paths {a, d/a, d/b, dx/a} x hashes {h1,h2}: all 6561 (materials,products) link states x rule lists over a 50-rule vocabulary (7 rule types, patterns * a d/* ? d/a, MATCH in all 4 forms with prefixes d, d/, e, e/d, both destination types, missing destination) of length<=1 completely and all 2-rule lists each on a seed-determined half of the link states (thorough); quick: all lists of length<=1 and a seeded 1% of the 2-rule lists, each on a seed-determined half of the link states, on the material and on the product side, for Step and Inspection items (thorough also: all 2744 lists of length 3 over a 14-rule sub-vocabulary on the 3-path sub-universe {a, d/a, dx/a}, 729 link states, alternating sides), each list also with a terminal probe DISALLOW <path> per universe path (queue observability); random: 8-path universe, 4 hash objects incl. other algorithm sets, lists of 1-11 rules with mixed-case keywords and occasional malformed rules; grammar: all token lists of length<=4 over 8 tokens + every valid form with <=2 substitutions / 1 insertion / 1 deletion in random casing. " +
+		Rule: "exhaustive: universe paths {a, d/a, d/b, dx/a} x hashes {h1,h2}: all 6561 (materials,products) link states x rule lists over a 50-rule vocabulary (7 rule types, patterns * a d/* ? d/a, MATCH in all 4 forms with prefixes d, d/, e, e/d, both destination types, missing destination) of length<=1 completely and all 2-rule lists each on a seed-determined half of the link states (thorough); quick: all lists of length<=1 and a seeded 1% of the 2-rule lists, each on a seed-determined half of the link states, on the material and on the product side, plus every pair (one material rule, one product rule) of the vocabulary on both sides of the same item (thorough: all 2601 pairs, quick: 1/8 of them; a quarter of the link states each), for Step and Inspection items (thorough also: all 2744 lists of length 3 over a 14-rule sub-vocabulary on the 3-path sub-universe {a, d/a, dx/a}, 729 link states, alternating sides), each list also with a terminal probe DISALLOW <path> per universe path (queue observability); random: 8-path universe, 4 hash objects incl. other algorithm sets, lists of 1-11 rules with mixed-case keywords and occasional malformed rules; grammar: all token lists of length<=4 over 8 tokens + every valid form with <=2 substitutions / 1 insertion / 1 deletion in random casing. " +
 			"Oracle = reference queue interpreter + reference grammar written from the spec text, using the reference glob (not the library's). non-trivial/distinct = enumerated cases are distinct by construction, random ones by hash of the whole case",
 		Assumptions: []string{
 			"only clean relative slash paths, clean patterns and prefixes (path.Clean(x)==x, prefixes also with one trailing slash) are generated: behaviour on unclean paths is not stated by the property and not judged",
